@@ -1,11 +1,12 @@
 #!/bin/bash
-# matrix.sh: for every seeded change, apply it to /repo, run all 20 quick checks in parallel, undo it.
+# matrix.sh [out]: (ONLY="C01-A C02-B" restricts the rows) for every seeded change, apply it to /repo, run all 20 quick checks in parallel, undo it.
 cd /verif
 ./build.sh || exit 2
 out=${1:-/var/tmp/matrix.txt}
 : > $out
 for d in seeded/*/; do
   id=$(basename $d)
+  if [ -n "$ONLY" ] && ! echo " $ONLY " | grep -q " $id "; then continue; fi
   git -C /repo apply /verif/$d/patch.diff || { echo "$id PATCH-DOES-NOT-APPLY" >> $out; continue; }
   for i in 01 02 03 04 05 06 07 08 09 10 11 12 13 14 15 16 17 18 19 20; do
     ( r=$(./check C$i --tier quick 2>&1 | grep -E "^VIOLATION" | head -1); 
